@@ -4,6 +4,7 @@ package main
 
 import (
 	"fmt"
+	"regexp"
 	"go/types"
 	"strings"
 
@@ -112,6 +113,39 @@ func (e *Exec) zzCall(fn *ssa.Function, args []Value) Value {
 		o := e.newObj(&LazyV{Name: nm, T: ta[0]}, nm)
 		o.Tag = "input:" + nm
 		return &PtrV{O: o}
+	case "NamedConsts":
+		pp, _ := concStr(args[0])
+		tn, _ := concStr(args[1])
+		vals := e.namedConsts(pp, tn)
+		e.nondet = append(e.nondet, NondetRec{Kind: "consts", Sym: pp + "." + tn, Val: strings.Join(vals, "\x00")})
+		return e.strSliceVal(vals)
+	case "Param":
+		nm, _ := concStr(args[0])
+		def, _ := concInt(args[1])
+		v := int(def)
+		if b, ok := e.cfg.Bounds["param:"+nm]; ok {
+			v = b
+		}
+		e.nondet = append(e.nondet, NondetRec{Kind: "param", Sym: nm, Val: fmt.Sprint(v)})
+		return cbv(uint64(v), 64)
+	case "Matches":
+		sv := args[0].(*StrV)
+		pat, ok := concStr(args[1])
+		if !ok {
+			e.unsupported("zz.Matches with symbolic pattern")
+		}
+		if sv.C != nil {
+			re, err := regexp.Compile(pat)
+			if err != nil {
+				e.unsupported("zz.Matches: bad pattern")
+			}
+			return cbool(re.MatchString(*sv.C))
+		}
+		t, ok := regexToSMT(pat)
+		if !ok {
+			e.unsupported("zz.Matches: pattern %q has no SMT counterpart", pat)
+		}
+		return &BoolV{T: "(str.in_re " + sv.T + " " + t + ")"}
 	case "MonitorStart":
 		e.monitorOn = true
 		e.monitorEpoch = e.objSeq
@@ -197,9 +231,27 @@ func (e *Exec) assertion(c *BoolV, msg string) {
 			return
 		}
 		if frontier {
-			e.res.Asserts++
-			m := e.pathModel()
-			e.res.Fails = append(e.res.Fails, AssertFail{Msg: msg, Result: "concrete", Model: m, Nondet: e.nondetWithModel(m), Site: e.curSite})
+			// the assertion is false on this path: a violation iff the path is feasible
+			switch r := e.s.Check(); r {
+			case "unsat":
+				e.reviveSolver()
+				panic(pathEnd{"infeasible", "path condition unsatisfiable (found at assertion)"})
+			case "sat":
+				e.res.Asserts++
+				names := make([]string, len(e.syms))
+				for i, s := range e.syms {
+					names[i] = s.Name
+				}
+				m := map[string]string{}
+				if len(names) > 0 {
+					m = e.s.GetValues(names)
+				}
+				e.res.Fails = append(e.res.Fails, AssertFail{Msg: msg, Result: "concrete", Model: m, Nondet: e.nondetWithModel(m), Site: e.curSite})
+			default:
+				e.reviveSolver()
+				e.res.Asserts++
+				e.res.Inconclusive = append(e.res.Inconclusive, AssertFail{Msg: msg, Result: "unknown (feasibility of a path on which the assertion is false)", Site: e.curSite})
+			}
 		}
 		panic(pathEnd{"assert-failed", msg})
 	}
@@ -217,6 +269,11 @@ func (e *Exec) assertion(c *BoolV, msg string) {
 	e.send("(push 1)")
 	e.send("(assert (not " + c.T + "))")
 	r := e.s.Check()
+	if e.s.Dead() {
+		r = "unknown"
+		e.reviveSolver()
+		e.send("(push 1)")
+	}
 	switch r {
 	case "unsat":
 		e.res.AssertsOK++
@@ -251,3 +308,29 @@ func isZZ(fn *ssa.Function) bool {
 }
 
 var _ = types.Typ
+
+// namedConsts lists the values of the package-level string constants of a named type.
+func (e *Exec) namedConsts(pkgPath, typeName string) []string {
+	p := e.findPkg(pkgPath)
+	if p == nil {
+		e.unsupported("package %s not loaded", pkgPath)
+	}
+	var names []string
+	for n := range p.Members {
+		names = append(names, n)
+	}
+	sortStrings(names)
+	var out []string
+	for _, n := range names {
+		nc, ok := p.Members[n].(*ssa.NamedConst)
+		if !ok {
+			continue
+		}
+		if nt, ok := nc.Type().(*types.Named); ok && nt.Obj().Name() == typeName && nc.Value.Value != nil {
+			if s, ok := concStr(e.constVal(nc.Value)); ok {
+				out = append(out, s)
+			}
+		}
+	}
+	return out
+}
